@@ -216,3 +216,19 @@ Definition load (fixed_bt proxy : bool) (d : option default_def) (r : rule_def) 
                | Panic => FactoryPanic
                end
   end.
+
+(** ruleSetProcessor.loadRules: the rules of a rule set are created one after
+    the other; the first failure aborts the whole set (nothing is handed to the
+    repository). *)
+Fixpoint load_rules (fixed_bt proxy : bool) (def : option effective) (rs : list rule_def) : res (list effective) :=
+  match rs with
+  | [] => Ok []
+  | r :: rest =>
+    match create_rule fixed_bt proxy def r with
+    | Ok e => match load_rules fixed_bt proxy def rest with
+              | Ok es => Ok (e :: es)
+              | Rejected => Rejected | Panic => Panic
+              end
+    | Rejected => Rejected | Panic => Panic
+    end
+  end.
